@@ -665,6 +665,11 @@ impl<Front: SocketHandler> ConnectionH1<Front> {
                         }
                         self.readiness.interest.insert(Ready::READABLE);
                         let stream = &mut context.streams[stream_id];
+                        // The next request on this kept-alive connection is a new
+                        // request: give it its own id, like `kawa_h1::Http::reset`
+                        // does. The correlation header and the generated
+                        // `X-Request-Id` are documented as per-request values.
+                        stream.context.id = Ulid::generate();
                         stream.context.reset();
                         stream.back.clear();
                         stream.back.storage.clear();
